@@ -16,6 +16,29 @@ use std::time::{Duration, Instant};
 
 pub const DEFAULT_SEED: u64 = 0xD16_17A1;
 
+/// resident set size of this process in bytes (Linux)
+pub fn rss_bytes() -> u64 {
+    std::fs::read_to_string("/proc/self/statm")
+        .ok()
+        .and_then(|s| s.split_whitespace().nth(1).and_then(|x| x.parse::<u64>().ok()))
+        .map(|pages| pages * 4096)
+        .unwrap_or(0)
+}
+
+/// a simulated run that makes the process grow beyond this is runaway allocation (normal:
+/// well under 2 GB even for the thorough tier)
+pub fn rss_limit() -> u64 {
+    std::env::var("DTR_SIM_RSS_LIMIT_GB")
+        .ok()
+        .and_then(|s| s.parse::<u64>().ok())
+        .unwrap_or(8)
+        << 30
+}
+
+/// set once some simulated run has been caught allocating without bound; the thread that
+/// runs it cannot be stopped, so everything winds down and the process exits quickly
+pub static RUNAWAY: AtomicBool = AtomicBool::new(false);
+
 pub fn run_seed(verif_seed: u64, prop: Prop, index: u64) -> u64 {
     mix(&[verif_seed, prop.index() + 1, index])
 }
@@ -110,6 +133,10 @@ pub struct CheckResult {
 }
 
 pub struct CheckOpts {
+    /// where replay files go and how a violation line is spelled (needed by the memory
+    /// watchdog, which has to report and exit on its own)
+    pub replay_dir: String,
+    pub found_line: bool,
     pub prop: Prop,
     pub tier: Tier,
     pub seed: u64,
@@ -149,9 +176,53 @@ pub fn check(opts: &CheckOpts) -> CheckResult {
         let beats = beats.clone();
         let done = done.clone();
         let hang = hang.clone();
+        let (prop, tier, seed) = (opts.prop, opts.tier, opts.seed);
+        let (replay_dir, found_line, profile) =
+            (opts.replay_dir.clone(), opts.found_line, opts.profile.clone());
         std::thread::spawn(move || {
+            let limit = rss_limit();
+            let mut n = 0u32;
             while !done.load(Ordering::Relaxed) {
-                std::thread::sleep(Duration::from_millis(500));
+                std::thread::sleep(Duration::from_millis(50));
+                if rss_bytes() > limit {
+                    // runaway allocation inside some simulated run: the run that has been
+                    // going for the longest is the culprit; report it and get out at once
+                    RUNAWAY.store(true, Ordering::SeqCst);
+                    let victim = beats
+                        .iter()
+                        .filter(|b| b.index.load(Ordering::Relaxed) > 0)
+                        .max_by_key(|b| b.since.lock().unwrap().elapsed())
+                        .map(|b| b.index.load(Ordering::Relaxed) - 1);
+                    if let Some(i) = victim {
+                        let case = generate(prop, run_seed(seed, prop, i), tier);
+                        let mut ev = evaluate_stub();
+                        ev.violation = Some(crate::oracle::Violation {
+                            oracle: "hang",
+                            detail: format!(
+                                "run {i} made the process grow beyond {} GB (runaway allocation; \
+                                 every next() must return)",
+                                limit >> 30
+                            ),
+                        });
+                        let j = replay_json(prop, seed, i, &case, &case, &ev, 0, &profile);
+                        let _ = std::fs::create_dir_all(&replay_dir);
+                        let path = format!("{}/{}-{}-{}.json", replay_dir, prop.id(), seed, i);
+                        let _ = std::fs::write(&path, j.to_pretty());
+                        println!("  oracle hang: {}", ev.violation.as_ref().unwrap().detail);
+                        if found_line {
+                            println!("FOUND property={} replay={}", prop.id(), path);
+                        } else {
+                            println!("VIOLATION property={} replay={}", prop.id(), path);
+                        }
+                        std::process::exit(1);
+                    }
+                    eprintln!("HARNESS-ERROR memory limit exceeded with no simulated run in progress");
+                    std::process::exit(2);
+                }
+                n += 1;
+                if n % 10 != 0 {
+                    continue;
+                }
                 for b in beats.iter() {
                     let idx = b.index.load(Ordering::Relaxed);
                     if idx > 0 && b.since.lock().unwrap().elapsed() > Duration::from_secs(20) {
@@ -551,18 +622,40 @@ pub fn evaluate_guarded(prop: Prop, case: &Case, timeout: Duration) -> Eval {
     if spawned.is_err() {
         return evaluate(prop, case);
     }
-    match rx.recv_timeout(timeout) {
-        Ok(ev) => ev,
-        Err(_) => {
+    let started = Instant::now();
+    let limit = rss_limit();
+    loop {
+        match rx.recv_timeout(Duration::from_millis(50)) {
+            Ok(ev) => return ev,
+            Err(std::sync::mpsc::RecvTimeoutError::Disconnected) => {
+                let mut ev = evaluate_stub();
+                ev.harness_error = Some("evaluation thread died".into());
+                return ev;
+            }
+            Err(std::sync::mpsc::RecvTimeoutError::Timeout) => {}
+        }
+        let runaway = rss_bytes() > limit;
+        if runaway {
+            RUNAWAY.store(true, Ordering::SeqCst);
+        }
+        if runaway || started.elapsed() > timeout {
             let mut ev = evaluate_stub();
             ev.violation = Some(crate::oracle::Violation {
                 oracle: "hang",
-                detail: format!(
-                    "the simulated run did not finish within {} s (every next() must return)",
-                    timeout.as_secs()
-                ),
+                detail: if runaway {
+                    format!(
+                        "the simulated run made the process grow beyond {} GB (runaway \
+                         allocation; every next() must return)",
+                        limit >> 30
+                    )
+                } else {
+                    format!(
+                        "the simulated run did not finish within {} s (every next() must return)",
+                        timeout.as_secs()
+                    )
+                },
             });
-            ev
+            return ev;
         }
     }
 }
@@ -1008,7 +1101,8 @@ pub fn shrink(prop: Prop, case: &Case, oracle: &str) -> (Case, u32) {
     loop {
         let mut improved = false;
         for cand in case_variants(&best) {
-            if budget == 0 {
+            if budget == 0 || RUNAWAY.load(Ordering::SeqCst) {
+                budget = 0;
                 break;
             }
             if !plausible(&cand) || !whiles_intact(&best, &cand) {
